@@ -376,6 +376,10 @@ def op_orphan_file(fs, d, r, keep_csum, which="entries"):
                 c = crc32c(crc32c(crc32c(crc32c(_seed(fs), struct.pack("<I", ino)), struct.pack("<I", gen)), struct.pack("<Q", blks[k])), bytes(d[o:o + n]))
                 struct.pack_into("<I", d, o + fs.bs - 4, c)
         return "orphan file inode %d: stale entry in block(s) %s" % (ino, pick)
+    if which == "file_acl":
+        struct.pack_into("<I", d, fs.inode_loc(ino) + 0x68, fs.blocks_count + 7)
+        fix_inode_csum(fs, d, ino)
+        return "orphan file inode %d: i_file_acl := %d (beyond the filesystem)" % (ino, fs.blocks_count + 7)
     if which == "entries":
         struct.pack_into("<H", d, a + 2, mx + 3)
         struct.pack_into("<I", d, a + 12 + 8, fs.blocks_count * 60 + 10)
